@@ -43,6 +43,11 @@ def plan(tier, seed):
                     'sizes': [121, 130, 200], 'weight': 30, 'timeout': 6000})
   specs += [{'shard': 'ecdsamixed-%d' % i, 'batches': 2 if q else 12,
              'weight': 6} for i in range(3)]
+  allsizes = [s_ + d for s_ in range(32, 289, 32) for d in (-1, 0, 1, 2)] + [
+      140, 150, 200, 300, 400, 520]
+  for i in range(2 if q else 4):
+    specs.append({'shard': 'rsaagg-%d' % i, 'max': 520,
+                  'sizes': allsizes[i::2 if q else 4], 'weight': 4})
   for fam in ('rsa', 'ec', 'ecdsa'):
     for i in range(1 if q else 4):
       specs.append({'shard': 'resubmit-%s-%d' % (fam, i), 'family': fam,
@@ -300,6 +305,34 @@ def run_ecdsamixed(ctx, spec):
     ctx.sample({'family': 'ecdsa-mixed', 'curve': curve, 'weak_kind': kind})
 
 
+def run_rsaagg(ctx, spec):
+  """Large healthy-only batches through the jointly judging RSA checks (the
+  per-key checks do not look at neighbours): batch sizes around every multiple
+  of 32 up to 260 and a few beyond."""
+  from paranoid_crypto.lib import paranoid
+  rng = ctx.rng('rsaagg')
+  checks = dict(paranoid.GetRSAAllChecks())
+  pool = [rng.prime(256) * rng.prime(256) for _ in range(spec['max'])]
+  for size in spec['sizes']:
+    if not ctx.want('size%d' % size):
+      continue
+    ns = rng.sample(pool, size)
+    for name in ('CheckGCD', 'CheckGCDN1'):
+      keys = [gen.rsa_key(n, pad=rng.choice([0, 0, 1])) for n in ns]
+      ret = checks[name].Check(keys)
+      ctx.count('large_healthy_aggregate_batches')
+      bad = [i for i, k in enumerate(keys) if k.test_info.weak or any(
+          e.result for e in k.test_info.test_results)]
+      ctx.count('evaluations', len(keys))
+      ctx.distinct('rsaagg', name, size)
+      if bad or ret is not False:
+        ctx.violation('healthy-artifact-accused@%s' % name,
+                      '%s on %d healthy moduli: returned %r, accused '
+                      'positions %r' % (name, size, ret, bad[:8]),
+                      {'size': size, 'check': name})
+  ctx.sample({'family': 'rsa-aggregate', 'sizes': spec['sizes']})
+
+
 def run_resubmit(ctx, spec):
   """The same healthy artifacts submitted again and again through the entry
   point (fresh protos each time): alone, reversed with weak neighbours, one by
@@ -373,6 +406,8 @@ def run(ctx, spec):
   s = spec['shard']
   if s.startswith('resubmit'):
     return run_resubmit(ctx, spec)
+  if s.startswith('rsaagg'):
+    return run_rsaagg(ctx, spec)
   for prefix, fn in (('rsamixed', run_rsamixed), ('rsa', run_rsa),
                      ('ecdsamixed', run_ecdsamixed), ('ecdsa', run_ecdsa),
                      ('ec', run_ec)):
@@ -386,5 +421,6 @@ def finalize(agg, tier):
           'healthy_rsa_keys_with_weak_neighbours',
           'healthy_signatures_with_weak_neighbours', 'mixed_batches',
           'healthy_batches', 'resubmitted_healthy_artifacts',
-          'padded_field_encodings', 'weak_first_curve_batches']
+          'padded_field_encodings', 'weak_first_curve_batches',
+          'large_healthy_aggregate_batches']
   return [], ['reach counter %s is zero' % k for k in need if not c.get(k)]
